@@ -1,6 +1,6 @@
 (* C12 - hashmap.nelua, part 3: rehash re-establishes the invariant and preserves the bindings (and their order). *)
 From Coq Require Import ZArith List Bool Lia Arith.
-From C12 Require Import Gen Model ProofsBase ProofsVec ProofsAL ProofsHM1 ProofsHM2.
+From C12 Require Import Gen Model ProofsBase ProofsVec ProofsAL ProofsHM1 ProofsHM2 ProofsFM.
 Import ListNotations.
 
 Lemma firstn_repeat_le : forall A (x : A) k n, firstn k (repeat x n) = repeat x (Nat.min k n).
@@ -227,19 +227,23 @@ Section HM3.
 
   Lemma hm_rehash_ok : forall bcount m, KU (hnodes m) -> hsize m = length (filter nfilled (hnodes m)) ->
     (hm_rehash K V kdflt vdflt keqb khash bcount m = Trap TrapOverflow /\
-     (2 ^ 62 < Z.of_nat (Nat.max bcount (ceilidiv (hsize m * 100) HM_MAXLF_n)))%Z) \/
+     (2 ^ 62 < Z.of_nat (Nat.max bcount (ceilidiv (hsize m * 100) HM_MAXLF_n)))%Z /\
+     fm_rehash K V kdflt vdflt bcount (canon K V m) = Trap TrapOverflow) \/
     exists m', hm_rehash K V kdflt vdflt keqb khash bcount m = Ok m' /\ hm_inv K V keqb khash m' /\
       hm_abs K V m' = hm_abs K V m /\ hsize m' = hsize m /\ bcount <= length (hbuckets m') /\
       (0 < hsize m -> 0 < length (hbuckets m')) /\
       (length (hnodes m) <= length (hnodes m') -> positional (hnodes m) (hnodes m')) /\
-      hm_rehash_sizes K V bcount m = Some (length (hbuckets m'), length (hnodes m')).
+      hm_rehash_sizes K V bcount m = Some (length (hbuckets m'), length (hnodes m')) /\
+      fm_rehash K V kdflt vdflt bcount (canon K V m) = Ok (canon K V m').
   Proof.
     intros bcount m U0 Hsize. unfold hm_rehash.
     pose proof hm_maxlf_pos as LFpos.
     set (minb := ceilidiv (hsize m * 100) HM_MAXLF_n).
     set (bc0 := if bcount <? minb then minb else bcount).
     destruct (Z.ltb_spec (roundpow2 (Z.of_nat bc0)) (Z.of_nat bc0)) as [Hov|Hrp].
-    { left. split; [reflexivity|].
+    { left. split; [reflexivity|]. split;
+        [|unfold fm_rehash; cbn [canon Model.hsize]; fold minb; fold bc0;
+          destruct (Z.ltb_spec (roundpow2 (Z.of_nat bc0)) (Z.of_nat bc0)); [reflexivity|lia]].
       assert (bc0 = Nat.max bcount minb) as -> by (unfold bc0; destruct (Nat.ltb_spec bcount minb); lia).
       destruct (Z_lt_le_dec (2 ^ 62) (Z.of_nat (Nat.max bcount minb))) as [|Hsm]; [assumption|].
       pose proof (roundpow2_ge (Z.of_nat (Nat.max bcount minb)) ltac:(lia)). lia. }
@@ -270,7 +274,8 @@ Section HM3.
     set (nodes2 := srealloc zero_node nc nodes1) in *.
     destruct R2 as (Habs2 & Hlen2 & Hpos2).
     pose proof (relink_free_spec K V nodes2 0) as RL. cbn zeta in RL.
-    destruct (relink_free K V nodes2 0) as [nodes3 fr]. cbn [fst snd] in RL.
+    pose proof (relink_canon_out K V nodes2 0) as RCO.
+    destruct (relink_free K V nodes2 0) as [nodes3 fr] eqn:ERL. cbn [fst snd] in RL, RCO.
     destruct RL as (L3 & P3 & S3). specialize (S3 [] eq_refl). cbn [app] in S3.
     assert (kvf_eq nodes2 nodes3) as KV23.
     { split; [lia|]. intros i nd H. destruct (P3 i nd H) as (nd' & A & B & _). eauto. }
@@ -341,11 +346,21 @@ Section HM3.
       + unfold MAXLF. fold nc0. lia.
       + intros Hb. apply Hn3. assumption.
     - intros Hpos. destruct (Nat.eq_dec bc 0) as [Ez|]; [|lia]. destruct (Hn4 Ez). lia.
-    - split.
+    - split; [|split].
       + intros Hle i nd Hi Fi. rewrite LN' in Hle.
         pose proof (Hpos2 Hle i nd Hi) as H2. destruct (proj2 KV2' i nd H2) as (x & Hx & Sx). eauto.
       + unfold hm_rehash_sizes. fold minb. fold bc0.
         destruct (Z.ltb_spec (roundpow2 (Z.of_nat bc0)) (Z.of_nat bc0)); [lia|]. fold bc. fold nc0. fold nc.
         rewrite LB', LN'. reflexivity.
+      + unfold fm_rehash. cbn [canon Model.hsize Model.hnodes]. rewrite map_length. fold minb. fold bc0.
+        destruct (Z.ltb_spec (roundpow2 (Z.of_nat bc0)) (Z.of_nat bc0)); [lia|]. fold bc. fold nc0. fold nc.
+        assert ((if (nc <? length (hnodes m)) && (0 <? length (hnodes m)) && (0 <? nc)
+                 then hm_compact K V kdflt vdflt (map (canon_node K V) (hnodes m)) else map (canon_node K V) (hnodes m))
+                = map (canon_node K V) nodes1) as ->.
+        { unfold nodes1. destruct ((nc <? length (hnodes m)) && (0 <? length (hnodes m)) && (0 <? nc));
+            [apply compact_canon|reflexivity]. }
+        rewrite srealloc_map by reflexivity. fold nodes2. rewrite relink_canon_in, ERL.
+        unfold canon. rewrite LB', SZ', FR'. do 2 f_equal.
+        rewrite <- RCO. apply canon_nodes_eq; assumption.
   Qed.
 End HM3.
